@@ -223,7 +223,9 @@ def run(ctx):
                     pn3 = (g3.j.get("param_names") or []) if g3 else []
                     if "topics" not in pn3:
                         continue
-                    t = W3.resolve(F, dsc, origin(dsc, c.args[pn3.index("topics")]))
+                    import terms as _terms
+                    with _terms.no_inlining():
+                        t = W3.resolve(F, dsc, origin(dsc, c.args[pn3.index("topics")]))
                     convs = [F.fn_opt(x[1]) for x in calls_in(t)]
                     convs = [x for x in convs if x is not None and x.blocks]
                     bodies = [dsc] if not convs else []
